@@ -104,6 +104,10 @@ class Model:
         self.own: T.Set[str] = set()     # yielding subproject options the user gave a value of their own
         self.cmdline: T.Dict[str, str] = {}
         self.configured = False
+        # values a machine file (--native-file) sets: below every -D, above the defaults of the option files,
+        # consulted whenever the configuration is derived afresh (first setup, --wipe) once the file is on record
+        self.native: T.Dict[str, str] = dict(spec.get('native') or {})
+        self.native_recorded = False
 
     # ------------------------------------------------------------ helpers
     def clone(self) -> 'Model':
@@ -192,9 +196,11 @@ class Model:
         self.own = {k for k in self.own if (self.files.get('sub') or {}).get(k.split(':', 1)[1], {}).get('yield')}
 
     # ------------------------------------------------------------ operations (return True = predicted success)
-    def fresh(self, D: T.Dict[str, str]) -> bool:
-        """First configuration (or re-derivation): defaults of the current files overlaid with D."""
+    def fresh(self, D: T.Dict[str, str], low: T.Optional[T.Dict[str, str]] = None) -> bool:
+        """First configuration (or re-derivation): defaults of the current files overlaid with the machine
+        file's values (low), overlaid with D."""
         try:
+            typed_low = self.check_assignments({k: v for k, v in (low or {}).items() if k not in D}, self.files)   # type: ignore[arg-type]
             typed = self.check_assignments(D, self.files)   # type: ignore[arg-type]
         except Invalid:
             return False
@@ -204,18 +210,21 @@ class Model:
         self.aug = {}
         self.own = set()
         self._reconcile()
+        self._store(typed_low)
         self._store(typed)
         self.configured = True
         return True
 
-    def setup(self, D: T.Dict[str, str]) -> bool:
-        merged = dict(self.cmdline)      # a leftover cmd_line.txt (failed wipe) is honoured
+    def setup(self, D: T.Dict[str, str], native: bool = False) -> bool:
+        merged = dict(self.cmdline)      # a leftover cmd_line.txt (failed wipe) is honoured, its machine files too
         merged.update(D)
+        use_native = bool(self.native) and (native or self.native_recorded)
         m = self.clone()
-        if not m.fresh(merged):
+        if not m.fresh(merged, self.native if use_native else None):
             return False
         self.__dict__.update(m.__dict__)
         self.cmdline = merged
+        self.native_recorded = use_native
         return True
 
     def configure(self, D: T.Dict[str, str], U: T.Sequence[str]) -> T.Optional[bool]:
@@ -303,7 +312,7 @@ class Model:
     def wipe(self) -> T.Optional[bool]:
         """True: succeeds; False: fails and leaves only the recorded command line behind."""
         m = self.clone()
-        if not m.fresh(dict(self.cmdline)):
+        if not m.fresh(dict(self.cmdline), self.native if self.native_recorded else None):
             self.configured = False
             self.known = {'top': {}, 'sub': None}
             self.vals, self.builtin, self.aug = {}, {}, {}
